@@ -320,6 +320,38 @@ def gen_interpenetrating(rng):
     raise RuntimeError("no interpenetrating pair found")
 
 
+def gen_tiny_parts(rng, pierce=True, ratio=None):
+    """a large convex part and, next to it, two convex parts that are 0.002 .. 0.012 of its size and either
+    interpenetrate each other (pierce) or are clearly apart: the self-intersection report must not depend on how
+    large the crossing faces are compared with the whole mesh"""
+    big = PARTS[rng.choice(["box", "convex-hull", "prism"])](rng)
+    lo, hi = big["verts"].min(axis=0), big["verts"].max(axis=0)
+    size = float(np.max(hi - lo))
+    ratio = ratio or rng.choice([0.002, 0.004, 0.008, 0.012])
+    if pierce:
+        pair = gen_interpenetrating(rng)
+        k = len(set(pair["owner"])) and pair["owner"].count(0)
+        nva = int(pair["faces"][:k].max()) + 1
+        small = [{"kind": "tiny", "verts": pair["verts"][:nva], "faces": pair["faces"][:k], "inner": pair["inner"][0],
+                  "convex": True},
+                 {"kind": "tiny", "verts": pair["verts"][nva:], "faces": pair["faces"][k:] - nva,
+                  "inner": pair["inner"][1], "convex": True}]
+    else:
+        small = place_apart(rng, [PARTS[rng.choice(["tetrahedron", "box", "convex-hull"])](rng) for _ in range(2)])
+    allv = np.vstack([p["verts"] for p in small])
+    slo, shi = allv.min(axis=0), allv.max(axis=0)
+    f = ratio * size / float(np.max(shi - slo))
+    # beside the big part along x, a gap of one small-part size away, at a generic height
+    target = np.array([hi[0] + 2 * ratio * size, lo[1] + 0.37 * (hi[1] - lo[1]), lo[2] + 0.61 * (hi[2] - lo[2])])
+    out = []
+    for p in small:
+        q = dict(p)
+        q["verts"] = (p["verts"] - slo) * f + target
+        q["inner"] = (np.asarray(p["inner"]) - slo) * f + target
+        out.append(q)
+    return assemble([big] + out, "tiny-interpenetrating-parts" if pierce else "tiny-parts-apart", pierce)
+
+
 def gen_needles(rng):
     """two long thin tetrahedra piercing each other at their tips (centres of the crossing triangles are
     almost two circumradii apart)"""
@@ -514,19 +546,22 @@ def _vol(a, b, c, d):
 def crossing_pairs(verts, faces, tol=1e-7):
     """independent float64 ground truth for self-intersection: pairs of faces WITHOUT a common vertex where an
     edge of one passes through the interior of the other.
-    -> (clear, maybe): `clear` pairs cross with every orientation predicate away from zero by tol * size^3,
-    `maybe` pairs cross if predicates inside that band are given the benefit of the doubt."""
+    -> (clear, maybe): `clear` pairs cross with every orientation predicate away from zero by tol * L^3,
+    `maybe` pairs cross if predicates inside that band are given the benefit of the doubt; L is the extent of
+    the two triangles of the pair themselves (their own scale, not that of the whole mesh: parts much smaller
+    than the mesh are judged as sharply as large ones)."""
     V = np.asarray(verts, dtype=float)
     F = np.asarray(faces, dtype=int)
     n = len(F)
-    size = float(np.max(V.max(axis=0) - V.min(axis=0))) or 1.0
-    band = tol * size ** 3
     I, J = np.triu_indices(n, 1)
     share = np.array([len(set(F[i]) & set(F[j])) > 0 for i, j in zip(I, J)], dtype=bool) if n > 1 else np.zeros(0, bool)
     I, J = I[~share], J[~share]
     clear = np.zeros(len(I), dtype=bool)
     maybe = np.zeros(len(I), dtype=bool)
     T = V[F]
+    six = np.concatenate([T[I], T[J]], axis=1) if len(I) else np.zeros((0, 6, 3))
+    L = np.max(six.max(axis=1) - six.min(axis=1), axis=1) if len(I) else np.zeros(0)
+    band = tol * L ** 3
     for A, B in ((I, J), (J, I)):
         a, b, c = T[B, 0], T[B, 1], T[B, 2]
         for k in range(3):
@@ -760,7 +795,9 @@ def gen_base(rng, weights=None):
         return b            # kept plain so that the signature of a nested-shell failure names one family
     if rng.random() < 0.3:
         b = add_unused_vertices(rng, b)
-    if rng.random() < 0.25 and not b["construction"].startswith("interpenetrating-needles"):
+    # (tiny parts are not stretched: a part thinner than ~1e-5 of the mesh extent is below the documented
+    #  resolution of the seed test, eps = 1e-5 on the unit-size copy)
+    if rng.random() < 0.25 and not b["construction"].startswith(("interpenetrating-needles", "tiny-")):
         b = stretch_base(b, rng.choice(STRETCHES))
     if rng.random() < 0.3:
         b["pol"] = rng.choice(POLS)
@@ -786,6 +823,8 @@ def gen_base0(rng):
         return gen_needles(rng)
     if x < 0.90:
         return gen_spike(rng)
+    if x < 0.93:
+        return gen_tiny_parts(rng, rng.random() < 0.6)
     b = rng.choice([gen_single, gen_disjoint_union, gen_duplicated])(rng)
     return delete_faces(rng, b)
 
@@ -800,6 +839,8 @@ def search(ctx, n_bases, n_variants):
               lambda: assemble([part_bighull(rng, 300)], "big-hull", False),
               lambda: assemble([part_subdivided_box(rng, 5)], "subdivided-box", False),
               lambda: gen_nested(rng), lambda: gen_tiny(rng, 1), lambda: gen_tiny(rng, 2),
+              lambda: gen_tiny_parts(rng, True, 0.002), lambda: gen_tiny_parts(rng, True, 0.008),
+              lambda: gen_tiny_parts(rng, False, 0.004),
               lambda: stretch_base(gen_single(rng, "convex-hull"), STRETCHES[0]),
               lambda: stretch_base(gen_single(rng, "prism"), STRETCHES[2]),
               lambda: stretch_base(gen_single(rng, "stellated"), STRETCHES[7])]
@@ -1360,6 +1401,7 @@ def run(ctx):
         "computed with all checks and the reorientation skipped",
     ]
     ctx.partial += ["C16_seed_bit_determines_partial"]
+    ctx.regen(["GenMesh"])       # AST fingerprints of the mesh functions (fail closed), checked in Props/C16.v
     built = ctx.build_props()
     if ctx.tier == "thorough" and built:
         with Lock():     # a concurrent run of this check rebuilds Props/C16.vo under the same lock
